@@ -97,7 +97,7 @@ def magnitude(draw, params, derived=(), symbolic=True, integer=False, hi=3):
     if c <= 4:
         return {"int": draw(st.integers(2, max(2, hi)))}
     if c <= 6 or not symbolic or not params:
-        return {"dec": draw(st.sampled_from([0.5, 1.5, 2.5, 0.25]))}
+        return {"dec": draw(st.sampled_from([0.5, 1.5, 2.5, 0.25, 2.5e-9, 1e-4]))}
     if c == 9 and derived:
         return {"der": draw(st.sampled_from(list(derived)))}
     if c == 8:
